@@ -74,6 +74,14 @@ pub fn gen_doc(rng: &mut Rng, tier: Tier, o: &DocOpts) -> Doc {
         }
     }
     gen::assign_opts(rng, &spec, &mut tree, o.p_width, o.p_unknown);
+    if o.shaping && o.p_width > 0 && rng.chance(1, 12) {
+        // after the options are assigned: an explicit-width master right behind 2^(7w)-1 bytes of its parent's content
+        if gen::shape_offset_boundary(rng, &mut tree) {
+            gen::fix_widths(&mut tree);
+            // the inserted Void is a global element: an unknown-size master directly in front of it would be ambiguous
+            gen::fix_unknown(&spec, &mut tree);
+        }
+    }
     Doc { spec, tree, has_raw, padded, last_empty }
 }
 
